@@ -14,7 +14,7 @@ namespace ratio
     {
         if (this == &i)
             return TRUE_lit;
-        if (get_type().get_name().compare(i.get_type().get_name()) != 0)
+        if (&get_type() != &i.get_type()) // predicates of the same name in different scopes are different predicates..
             return FALSE_lit;
         else if (var_item *ei = dynamic_cast<var_item *>(&i))
             return ei->new_eq(*this);
@@ -49,7 +49,7 @@ namespace ratio
     {
         if (this == &i)
             return true;
-        if (get_type().get_name().compare(i.get_type().get_name()) != 0)
+        if (&get_type() != &i.get_type()) // predicates of the same name in different scopes are different predicates..
             return false;
         else if (var_item *ei = dynamic_cast<var_item *>(&i))
             return ei->equates(*this);
